@@ -3542,7 +3542,12 @@ class Mailbox:
         # Inbox is handled specially.
         #
         if mbox.name.lower() != "inbox":
-            await _helper_rename_folder(mbox, new_name)
+            # (not while the periodic scan for new folders walks the mail
+            # directory, and no such scan while we are at it: see
+            # `folder_tree_lock`.)
+            #
+            async with server.folder_tree_lock:
+                await _helper_rename_folder(mbox, new_name)
         else:
             await _helper_rename_inbox(mbox, new_name)
 
